@@ -295,6 +295,10 @@ def wfunc(repo, rel, qual):
     return expand_private_calls(repo, rel, repo.func(rel, qual))
 
 
+from ..lib_C01 import (class_methods, expand_private_calls,  # noqa: E402,F401,F811
+                       module_function, module_value)
+
+
 # ----------------------------------------------------------------------
 # enumeration of the summary stores of a function
 
@@ -362,7 +366,7 @@ def name_resolver(repo, rel, func):
             return defs[0].value
         if defs:
             return None
-        return repo.module_assign(rel, name, missing_ok=True)
+        return module_value(repo, rel, name)
     return res
 
 
@@ -920,6 +924,191 @@ def _weighted_mean(ctx, pv, node, lab, table):
 # ----------------------------------------------------------------------
 # R20.2
 
+def normalise_reader_class(repo, rel, cls):
+    """copy of a feature-wrapper class brought to the shape the rules are
+    written against (nothing is decided here):
+    * methods inherited from base classes / mixins of the same file are
+      part of the class (MRO);
+    * a private cache object (`self._ufunc_attrs = _Cache(attrs)` with
+      `lookup(k)` = `dict.get(k)` and `store(k, v)` = `dict[k] = v`) reads
+      as the dictionary it wraps;
+    * a record parameter of `_fetch_ufunc_attr` (`spec.name`, `spec.func`
+      of a module-level namedtuple constant) is split into its fields."""
+    meths = class_methods(repo, rel, cls)
+    new = _clone(cls)
+    own = {f.name for f in new.body if isinstance(f, ast.FunctionDef)}
+    for name, f in meths.items():
+        if name not in own:
+            new.body.append(_clone(f))
+    tree = repo.tree(rel)
+    # --- cache object
+    api = {}
+    for f in [x for x in new.body if isinstance(x, ast.FunctionDef)
+              and x.name == "__init__"]:
+        for n in walk(f):
+            if isinstance(n, ast.Assign) and len(n.targets) == 1 \
+                    and is_self_attr(n.targets[0]) \
+                    and isinstance(n.value, ast.Call) \
+                    and isinstance(n.value.func, ast.Name) \
+                    and n.value.func.id.startswith("_") \
+                    and len(n.value.args) == 1 and not n.value.keywords:
+                ccls = [c for c in tree.body if isinstance(c, ast.ClassDef)
+                        and c.name == n.value.func.id]
+                if len(ccls) != 1:
+                    continue
+                kind = _cache_class_api(ccls[0])
+                if kind is None:
+                    continue
+                api[n.targets[0].attr] = kind
+                n.value = ast.copy_location(ast.Call(
+                    func=ast.Name(id="dict", ctx=ast.Load()),
+                    args=n.value.args, keywords=[]), n.value)
+    if api:
+        class T(ast.NodeTransformer):
+            def visit_Expr(self, node):
+                c = node.value
+                if isinstance(c, ast.Call) and isinstance(
+                        c.func, ast.Attribute) and is_self_attr(
+                        c.func.value) and c.func.value.attr in api \
+                        and api[c.func.value.attr].get(
+                            c.func.attr) == "set" and len(c.args) == 2:
+                    return ast.copy_location(ast.Assign(
+                        targets=[ast.Subscript(
+                            value=c.func.value, slice=c.args[0],
+                            ctx=ast.Store())], value=c.args[1]), node)
+                self.generic_visit(node)
+                return node
+
+            def visit_Call(self, c):
+                self.generic_visit(c)
+                if isinstance(c.func, ast.Attribute) and is_self_attr(
+                        c.func.value) and c.func.value.attr in api \
+                        and api[c.func.value.attr].get(
+                            c.func.attr) == "get" and len(c.args) == 1:
+                    c.func.attr = "get"
+                return c
+        T().visit(new)
+    # --- record parameter of _fetch_ufunc_attr
+    ff = [f for f in new.body if isinstance(f, ast.FunctionDef)
+          and f.name == "_fetch_ufunc_attr"]
+    if ff and len(ff[0].args.args) == 2:
+        f = ff[0]
+        rec = f.args.args[1].arg
+        uses = [n for n in walk(f) if isinstance(n, ast.Name)
+                and n.id == rec]
+        attr_uses = [n for n in walk(f) if isinstance(n, ast.Attribute)
+                     and isinstance(n.value, ast.Name) and n.value.id == rec]
+        if len(uses) == len(attr_uses) and attr_uses:
+            fields = None
+            # field order from the namedtuple of the constants passed in
+            calls = [c for m in new.body if isinstance(m, ast.FunctionDef)
+                     for c in find_calls(m, attr="_fetch_ufunc_attr")
+                     if len(c.args) == 1 and not c.keywords]
+            recs = []
+            for c in calls:
+                v = c.args[0]
+                if isinstance(v, ast.Name):
+                    v = module_value(repo, rel, v.id)
+                if not (isinstance(v, ast.Call) and isinstance(
+                        v.func, ast.Name)):
+                    recs = None
+                    break
+                nt = module_value(repo, rel, v.func.id)
+                flds = _namedtuple_fields(nt)
+                if flds is None:
+                    recs = None
+                    break
+                fields = fields or flds
+                vals = dict(zip(flds, v.args))
+                vals.update({k.arg: k.value for k in v.keywords})
+                if set(vals) != set(flds):
+                    recs = None
+                    break
+                recs.append((c, [vals[x] for x in flds]))
+            used = {n.attr for n in attr_uses}
+            if recs and fields and len(fields) == 2 and used <= set(fields):
+                names = {fields[0]: "uname", fields[1]: "ufunc"}
+                f.args.args = [f.args.args[0]] + [
+                    ast.arg(arg=names[x], annotation=None) for x in fields]
+
+                class R(ast.NodeTransformer):
+                    def visit_Attribute(self, n):
+                        self.generic_visit(n)
+                        if isinstance(n.value, ast.Name) \
+                                and n.value.id == rec:
+                            return ast.copy_location(ast.Name(
+                                id=names[n.attr], ctx=ast.Load()), n)
+                        return n
+                R().visit(f)
+                for c, vals in recs:
+                    c.args = [_clone(x) for x in vals]
+    ast.fix_missing_locations(new)
+    _relink(new, cls.parent)
+    return new
+
+
+def _namedtuple_fields(v):
+    """field names of `collections.namedtuple("N", [...])` /
+    `namedtuple("N", "a b")`"""
+    if not (isinstance(v, ast.Call) and (call_name(v) or "").split(
+            ".")[-1] == "namedtuple" and len(v.args) == 2):
+        return None
+    f = v.args[1]
+    if isinstance(f, (ast.List, ast.Tuple)) and all(
+            const_str(e) for e in f.elts):
+        return [const_str(e) for e in f.elts]
+    if const_str(f):
+        return const_str(f).replace(",", " ").split()
+    return None
+
+
+def _cache_class_api(ccls):
+    """{method: 'get'|'set'} of a private cache class that only wraps one
+    dictionary: __init__ binds `self.<d> = dict(arg)`, getters return
+    `self.<d>.get(k[, None])`, setters do `self.<d>[k] = v`; None when the
+    class does anything else"""
+    meths = [f for f in ccls.body if isinstance(f, ast.FunctionDef)]
+    init = [f for f in meths if f.name == "__init__"]
+    if len(init) != 1:
+        return None
+    body = [b for b in init[0].body if not (isinstance(b, ast.Expr)
+            and isinstance(b.value, ast.Constant))]
+    if not (len(body) == 1 and isinstance(body[0], ast.Assign)
+            and is_self_attr(body[0].targets[0])
+            and isinstance(body[0].value, ast.Call)
+            and call_name(body[0].value) == "dict"
+            and len(init[0].args.args) == 2
+            and txt(body[0].value.args[0]) == init[0].args.args[1].arg):
+        return None
+    d = body[0].targets[0].attr
+    api = {}
+    for f in meths:
+        if f.name == "__init__":
+            continue
+        b = [x for x in f.body if not (isinstance(x, ast.Expr)
+             and isinstance(x.value, ast.Constant))]
+        ps = [a.arg for a in f.args.args]
+        if len(b) != 1:
+            return None
+        st = b[0]
+        if isinstance(st, ast.Return) and isinstance(st.value, ast.Call) \
+                and last_attr(st.value) == "get" and is_self_attr(
+                st.value.func.value, d) and len(ps) == 2 \
+                and txt(st.value.args[0]) == ps[1] and (
+                len(st.value.args) == 1
+                or txt(st.value.args[1]) == "None"):
+            api[f.name] = "get"
+        elif isinstance(st, ast.Assign) and isinstance(
+                st.targets[0], ast.Subscript) and is_self_attr(
+                st.targets[0].value, d) and len(ps) == 3 \
+                and txt(st.targets[0].slice) == ps[1] \
+                and txt(st.value) == ps[2]:
+            api[f.name] = "set"
+        else:
+            return None
+    return api
+
+
 def reader_table(cls, repo=None, rel=None):
     """{method name: (uname, reducer, call)} from `_fetch_ufunc_attr("x",
     f)`.  Calls that go through a private helper of the class are followed
@@ -937,7 +1126,7 @@ def reader_table(cls, repo=None, rel=None):
             if len(defs) == 1:
                 return resolve(defs[0].value, f, depth + 1)
             if not defs and e.id not in params and repo is not None:
-                m = repo.module_assign(rel, e.id, missing_ok=True)
+                m = module_value(repo, rel, e.id)
                 if m is not None:
                     return resolve(m, f, depth + 1)
             return e
@@ -1023,10 +1212,12 @@ def r202(ctx, repo, wtable, wn):
                f"{sorted(wtable.get(u, set()))}", node=st,
                key=f"{CP}::rtdc_copy::table {u}")
     for rel, cname in ((EV, "H5ScalarEvent"), (HE, "ChildScalar")):
-        tab = reader_table(repo.cls(rel, cname), repo, rel)
+        tab = reader_table(normalise_reader_class(
+            repo, rel, repo.cls(rel, cname)), repo, rel)
         for u in NAMES:
             if u not in tab:
-                m = [f for f in repo.cls(rel, cname).body
+                m = [f for f in normalise_reader_class(
+                        repo, rel, repo.cls(rel, cname)).body
                      if isinstance(f, ast.FunctionDef) and f.name == u]
                 if not m:
                     raise AnalysisError(f"{cname}.{u} lost")
@@ -1550,12 +1741,16 @@ def _deref_aliases(func):
 
 
 def r203(ctx, repo, cstores):
-    h5 = repo.cls(EV, "H5ScalarEvent")
-    ch = repo.cls(HE, "ChildScalar")
+    h5 = normalise_reader_class(repo, EV, repo.cls(EV, "H5ScalarEvent"))
+    ch = normalise_reader_class(repo, HE, repo.cls(HE, "ChildScalar"))
     check_fetch(ctx, EV, h5, "H5ScalarEvent", repo)
     check_fetch(ctx, HE, ch, "ChildScalar", repo)
     # seeds
-    ini = repo.func(EV, "H5ScalarEvent.__init__")
+    ini = [f_ for f_ in h5.body if isinstance(f_, ast.FunctionDef)
+           and f_.name == "__init__"]
+    if not ini:
+        raise AnalysisError("H5ScalarEvent.__init__ lost")
+    ini = ini[0]
     seed = [n for n in walk(ini) if isinstance(n, ast.Assign)
             and any(is_self_attr(t, "_ufunc_attrs") for t in n.targets)]
     if len(seed) != 1:
@@ -1570,7 +1765,11 @@ def r203(ctx, repo, cstores):
            "own dataset's attributes" if ok else
            f"H5ScalarEvent seeds its cache from `{short(v, 40)}`",
            node=seed[0], label="seed from own attributes")
-    ini = repo.func(HE, "ChildScalar.__init__")
+    ini = [f_ for f_ in ch.body if isinstance(f_, ast.FunctionDef)
+           and f_.name == "__init__"]
+    if not ini:
+        raise AnalysisError("ChildScalar.__init__ lost")
+    ini = ini[0]
     seed = [n for n in walk(ini) if isinstance(n, ast.Assign)
             and any(is_self_attr(t, "_ufunc_attrs") for t in n.targets)]
     if len(seed) != 1:
@@ -1598,7 +1797,8 @@ def r203(ctx, repo, cstores):
            "reported", node=af, label="refresh discards child caches")
     _refresh_survivors(ctx, repo, af)
     for rel_, cname_ in ((EV, "H5ScalarEvent"), (HE, "ChildScalar")):
-        _memo_resets(ctx, repo.cls(rel_, cname_), rel_, repo)
+        _memo_resets(ctx, normalise_reader_class(
+            repo, rel_, repo.cls(rel_, cname_)), rel_, repo)
     rj = repo.func(HB, "RTDC_Hierarchy.rejuvenate")
     ok = any(is_self_attr(c.func, "apply_filter")
              for c in find_calls(rj, attr="apply_filter"))
@@ -1653,8 +1853,9 @@ def r203(ctx, repo, cstores):
     for rel_, q_ in sorted(allowed):
         f_ = wfunc(repo, rel_, q_)
         pre = q_.rsplit(".", 1)[0] + "." if "." in q_ else ""
-        for h in getattr(f_, "expanded_from", []):
-            allowed.add((rel_, pre + h))
+        for h_rel, h in getattr(f_, "expanded_from", []):
+            allowed.add((h_rel, pre + h))
+            allowed.add((h_rel, h))
     n_sites = 0
     for rel in repo.files("dclab/"):
         if ".attrs[" not in repo.src(rel):
@@ -1882,8 +2083,18 @@ def r205(ctx, repo):
         src = repo.src(rel)
         if not any(f"def {u}(" in src for u in NAMES):
             continue
-        for cls in [n for n in ast.walk(repo.tree(rel))
-                    if isinstance(n, ast.ClassDef)]:
+        classes = [n for n in ast.walk(repo.tree(rel))
+                   if isinstance(n, ast.ClassDef)]
+        bases = {b.id for c in classes for b in c.bases
+                 if isinstance(b, ast.Name)}
+        for cls0 in classes:
+            if cls0.name in bases and (cls0.name.startswith("_") or not any(
+                    isinstance(f, ast.FunctionDef) and f.name == "__init__"
+                    for f in cls0.body)):
+                # a mixin / abstract base (private, or without constructor):
+                # decided through the classes that inherit from it
+                continue
+            cls = normalise_reader_class(repo, rel, cls0)
             meths = {f.name: f for f in cls.body
                      if isinstance(f, ast.FunctionDef)}
             if set(NAMES) & set(meths):
